@@ -473,3 +473,29 @@ PROPS["C07"] = dict(
         technique="stateful model-based property testing (rapid) of key histories against a reference model",
     ),
 )
+
+PROPS["C20"] = dict(
+    pkg="c20",
+    helpers=("argdump",),
+    level="exploration",
+    rule=("hook configurations: the program is a recorder binary (also installed on a private PATH under the literal names %url and "
+          "%mimetype, so a substituted program name cannot be found) followed by 0..5 arguments drawn from exact placeholders, "
+          "placeholders embedded in longer strings, repeated, other %words, empty strings, dashes, shell syntax; posts (all kinds) with "
+          "0..3 body links, 0..3 attachments, 0..2 media links, and an author with icon/banner, whose link strings contain spaces, "
+          "quotes, $(), backticks, leading dashes, placeholder text, newlines, shell metacharacters, 6000 characters; media types "
+          "present, absent, parameterised. The UI driver presses N+Enter for every number 1..N+1, o, then c, p and b. Oracle: the "
+          "recorder's argv and stdin per keypress equal a reference substitution written from the README (exact match only, index >= 1, "
+          "four placeholders; link on stdin iff no %url argument) applied to the link and media type obtained independently from "
+          "SelectLink/Media/ProfilePic/Banner; exactly one process per keypress, none when there is nothing to open. Non-trivial: at "
+          "least two hook runs, a placeholder-like argument and a link with shell-significant characters. Distinct = distinct case."),
+    units=[
+        rapid("Prop", "TestProp", 1200, 60000, shards=(8, 16), config_toml=_NET, timeout=dict(quick=600, thorough=3000)),
+    ],
+    manifest=dict(
+        text=("Property-based testing through the real UI and a real exec: a recording hook program captures argv and stdin, which "
+              "are compared with a reference substitution from the documentation. Sampled."),
+        design_ref="DESIGN.md §3 C20",
+        note="Trusted: the recorder (harness/argdump), the reference substitution in harness/c20, and the item API for the expected link.",
+        technique="property-based testing (rapid) with a recording hook program and a reference argv substitution",
+    ),
+)
